@@ -501,7 +501,7 @@ def run(ctx):
     qs = [k / 4 for k in range(0, 25)]
     for typ in geoms.TYPES:
         for _ in range(ctx.scale(60, 400)):
-            cs = rng.choice(qs[:12]); ce = cs + rng.choice(qs[1:12])
+            cs = rng.choice(qs[:12] + [-0.5, -0.25, -2.0]); ce = cs + rng.choice(qs[1:12])
             where = rng.choice(["inside", "touch_start", "touch_end", "across_start", "across_end", "before", "after", "cover", "random"])
             L = ce - cs
             if where == "inside":
@@ -522,6 +522,7 @@ def run(ctx):
                 a, b = max(cs - 1.0, 0.0), ce + 1.0
             else:
                 a = rng.uniform(0, 8); b = a + rng.uniform(0.01, 4)
+            a = max(a, 0.0)          # (geometries live at times >= 0; the clip may start before that)
             if not b > a:
                 b = a + 0.25
             gs = geoms.geom_in_box(rng, typ, a, b, 1000.0, 5000.0)
